@@ -46,6 +46,8 @@ theorem C_exec_mono1 (f : Nat) :
         · exact ihe te b st1 m
       | assign x e => intro _; rw [C.exec, C.exec]
       | aug x op e => intro _; rw [C.exec, C.exec]
+      | tuple k xs es => intro _; rw [C.exec, C.exec]
+      | ctuple k ts xs es => intro _; rw [C.exec, C.exec]
       | ifs c t e =>
         rw [C.exec, C.exec]
         refine bind_stable_l ?_
